@@ -119,7 +119,7 @@ def run_mc(prop, tier):
     results = []
     for (name, module, cfgtext, workers) in mc_plan(prop, tier):
         key = hashlib.sha256((rv.spec_hash() + cfgtext).encode()).hexdigest()[:20]
-        cdir = rv.ensure_dir(os.path.join(rv.WORK, "mc_cache"))
+        cdir = rv.ensure_dir(rv.MC_CACHE)
         cfile = os.path.join(cdir, "small-%s-%s.json" % (name, key))
         if os.path.exists(cfile):
             with open(cfile) as f:
